@@ -471,3 +471,139 @@ def seat_check(prop, tier, seed, work, replay):
 
 for _p in ("C08", "C17", "C18"):
     REGISTRY[_p] = seat_check
+
+
+# ------------------------------------------------------------------ C09 / C19 / C20
+REG_TIER = {
+    "quick": dict(mc=[(3, 2, 7), (3, 3, 7)], live=(3, 2, 5), random_runs=500, steps=45, sweep=["-maxmax", "6", "-stride", "2"], sim_num=12),
+    "thorough": dict(mc=[(2, 2, 6), (3, 2, 7), (3, 3, 8), (4, 3, 9), (4, 2, 9)], live=(3, 2, 6), random_runs=15000, steps=60,
+                     sweep=["-maxmax", "10", "-stride", "1"], sim_num=2500),
+}
+
+
+def reg_sim_scripts(work, num, seed, outpath):
+    d = work.sub("regsim")
+    vlib.spec_copy(d)
+    vlib.write_cfg(os.path.join(d, "SimReg.cfg"), constants={"Settings": "Settings <- SimSettings"}, invariants=["Dump"])
+    rc, out = vlib.tlc(d, "SimReg.tla", "SimReg.cfg", workers=1, timeout=900,
+                       extra=["-simulate", "num=%d" % num, "-depth", "45", "-seed", str(seed)])
+    seen, n = set(), 0
+    with open(outpath, "w") as f:
+        for line in out.splitlines():
+            if not line.startswith('<<"SCRIPT", "'):
+                continue
+            js = line[len('<<"SCRIPT", "'):-len('">>')].encode().decode("unicode_escape")
+            if js in seen:
+                continue
+            seen.add(js)
+            hist = json.loads(js)
+            f.write(json.dumps(dict(run=700000 + n, max=hist[0]["max"], min=hist[0]["min"],
+                                    ops=[dict(op=o["op"], n=o["n"], t=o["t"]) for o in hist[1:]])) + "\n")
+            n += 1
+    if n == 0:
+        raise Inconclusive("TLC simulation produced no regulator scripts:\n" + out[-1500:])
+    return n
+
+
+def reg_check(prop, tier, seed, work, replay):
+    t0 = time.time()
+    T = REG_TIER[tier]
+    binary = vlib.build_harness(work)
+
+    def run_script(script, d, repeat=1):
+        sp = os.path.join(d, "s.ndjson")
+        open(sp, "w").write(json.dumps(script) + "\n")
+        out = os.path.join(d, "out.ndjson")
+        vlib.drive(binary, ["reg-replay", "-scripts", sp, "-o", out, "-repeat", repeat])
+        return out
+
+    if replay:
+        desc = json.load(open(replay))
+        out = run_script(desc["script"], work.sub("replay"), repeat=25)
+        r = vlib.validate(work, [out], "RegTrace.tla", [prop], nchunks=4, heap="3g", maxviol=200)
+        if any(x["clause"] == desc["clause"] for x in r["viol"]):
+            print("VIOLATION property=%s replay=%s" % (prop, replay))
+            return 1
+        print("replay of %s (25 times: the code iterates over Go maps): clause %s holds" % (replay, desc["clause"]))
+        return 0
+
+    mcs = []
+    for mx, mn, reg in T["mc"]:
+        mcs.append(generic_mc(work, "MCReg.tla", "mcreg%d%d" % (mx, mn),
+                              dict(MX=str(mx), MN=str(mn), MaxReg=str(reg), MaxBatch="3", MaxOut="2", Props=vlib.tla_set([prop]),
+                                   WithSettle="TRUE" if prop == "C20" else "FALSE"),
+                              invariants=["MaxSweeps"], properties=["StepHolds"], view="View", timeout=3400))
+    if prop == "C20":
+        mx, mn, reg = T["live"]
+        mcs.append(generic_mc(work, "MCReg.tla", "mcreglive",
+                              dict(MX=str(mx), MN=str(mn), MaxReg=str(reg), MaxBatch="3", MaxOut="2", Props=vlib.tla_set([prop]), WithSettle="TRUE"),
+                              properties=["Settles"], spec="LiveSpec", timeout=3400))
+    for m in mcs:
+        if not m["ok"]:
+            print("MODEL-NOTE: clauses of %s violated in the MODEL (%s): not a verdict (R1)" % (prop, m["violated"]))
+
+    d = work.sub("reg")
+    files, stats = {}, {}
+    f, scr = os.path.join(d, "random.ndjson"), os.path.join(d, "random.scripts")
+    stats["random"] = vlib.drive(binary, ["reg-random", "-runs", T["random_runs"], "-steps", T["steps"], "-seed", seed, "-o", f, "-scripts", scr], timeout=3600)
+    files[f] = scr
+    if prop in ("C19", "C09"):
+        f, scr = os.path.join(d, "sweep.ndjson"), os.path.join(d, "sweep.scripts")
+        stats["sweep"] = vlib.drive(binary, ["reg-sweep", "-seed", seed, "-o", f, "-scripts", scr] + T["sweep"], timeout=3600)
+        files[f] = scr
+    simf = os.path.join(d, "sim.scripts")
+    nsim = reg_sim_scripts(work, T["sim_num"], seed, simf)
+    f, scr = os.path.join(d, "sim.ndjson"), os.path.join(d, "sim.out.scripts")
+    stats["sim"] = vlib.drive(binary, ["reg-replay", "-scripts", simf, "-o", f, "-out-scripts", scr])
+    files[f] = scr
+    res = vlib.validate(work, sorted(files), "RegTrace.tla", [prop], nchunks=max(4, vlib.NCPU // 2), heap="3g", maxviol=100)
+    log("[val] %d lines, %d failed clauses, %d drift, %.0fs" % (res["lines"], len(res["viol"]), len(res["drift"]), res["tlc_s"]))
+
+    def sig(v, line, rs):
+        st = (line or {}).get("state") or {}
+        return "%s|op=%s" % (v["clause"], (line or {}).get("op"))
+
+    def repro(v, line, rs):
+        script = None
+        for raw in open(files[v["src"]]):
+            if raw.strip() and json.loads(raw)["run"] == line["run"]:
+                script = json.loads(raw)
+        if script is None:
+            return False, None
+        out = run_script(script, work.sub("repro"), repeat=25)
+        r = vlib.validate(work, [out], "RegTrace.tla", [prop], nchunks=4, heap="3g", maxviol=200)
+        return any(x["clause"] == v["clause"] for x in r["viol"]), dict(kind="reg-script", clause=v["clause"], script=script, failing_line=line)
+
+    rc, nviol, known_hit = verdict.judge(prop, tier, seed, res["viol"], sig, repro)
+    if res["drift"]:
+        d0 = res["drift"][0]
+        dl = vlib.read_line(d0["src"], d0["srcline"])
+        print("MODEL-DRIFT: %d recorded calls are not steps of the precise model (first: %s); not a verdict" % (len(res["drift"]), verdict.brief(dl)))
+    cnt = res["cnt"]
+    rf = [x for x in files if x.endswith("random.ndjson")][0]
+    coverage = {
+        "states": sum(m["distinct"] for m in mcs), "transitions": sum(m["generated"] for m in mcs),
+        "traces_validated_against_impl": int(cnt.get("runs", 0)),
+        "samples": [{"calls": [[x["op"], x["id"], x["out"], x["players"], x["err"], x["release"], x["handed"], x["calls"]] for x in vlib.read_lines(rf, 2, 9)]}],
+        "model_checking": mc_summary(mcs),
+        "real_calls_validated": res["lines"], "real_calls_by_source": stats, "tlc_scripts": nsim,
+        "antecedents_exercised_on_real_code": cnt,
+        "model_drift_lines": len(res["drift"]), "known_findings_hit": known_hit,
+        "failed_clauses": sorted({v["clause"] for v in res["viol"]}),
+        "exhaustive": False,
+    }
+    vlib.write_evidence(prop, tier, seed, coverage, time.time() - t0, nviol,
+                        assumptions=["the environment follows the regulator's instructions (tables release exactly the number asked for, seat the players handed out)",
+                                     "the waiting queue is read through the verif snapshot hook", "projection drv_reg.go"])
+    need = {"C09": ["C09.syncHandsOut", "C09.syncReleases", "C09.unknownTable", "C09.afterDeadline", "C20.break"],
+            "C19": ["C19.request", "C19.initialAllocation", "C19.assign"],
+            "C20": ["C20.break", "C20.settleEpisode"]}[prop]
+    missing = [a for a in need if cnt.get(a, 0) == 0]
+    if rc == 0 and missing:
+        print("INCONCLUSIVE property=%s never exercised: %s" % (prop, ",".join(missing)))
+        return 2
+    return rc
+
+
+for _p in ("C09", "C19", "C20"):
+    REGISTRY[_p] = reg_check
